@@ -94,8 +94,8 @@ func tyByName(s string) reflect.Type {
 // injCase: registrations over nested scopes and one invocation (C04, part A).
 type injCase struct {
 	Scopes   int      `json:"scopes"`                            // 1..3, scope 0 outermost, the last one is the nearest
-	Link     string   `json:"scopes_linked,omitempty"`            // "" = every scope is given its parent as it is created, outermost first, before anything is registered | inside-out (the innermost link is made first, the outermost last) | after-registrations | relinked (every scope first gets a decoy parent that holds a value for every type and is then given its real parent). A scope resolves through the parents it has when it is asked
-	Crowd    int      `json:"crowded_scope,omitempty"`            // >0: one scope (index Crowd-1) is filled up to 9-14 distinct types before the later re-registrations (which then re-register what the parameters ask for in that scope)
+	Link     string   `json:"scopes_linked,omitempty"`           // "" = every scope is given its parent as it is created, outermost first, before anything is registered | inside-out (the innermost link is made first, the outermost last) | after-registrations | relinked (every scope first gets a decoy parent that holds a value for every type and is then given its real parent). A scope resolves through the parents it has when it is asked
+	Crowd    int      `json:"crowded_scope,omitempty"`           // >0: one scope (index Crowd-1) is filled up to 9-14 distinct types before the later re-registrations (which then re-register what the parameters ask for in that scope)
 	Pad      int      `json:"empty_scopes_in_between,omitempty"` // this many empty injectors stand between each scope and its parent, and between the invoking injector and the nearest scope: an empty scope changes nothing, however many there are
 	Regs     []injReg `json:"registrations"`
 	Later    []injReg `json:"later_registrations,omitempty"`         // applied after the first invocation; then the handler is invoked again
